@@ -4,7 +4,7 @@
    resolve_numeric_value, has_field, wrap_with_field, is_value_scope,
    get_snippets_for_scope).  Follows the Python function by function; models the
    repaired find_best_match (direct hit = equal names), wrap_with_field
-   (numbers printed with frac) and resolve_gradient (property name under every
+   (numbers printed with frac; a function call stays a call) and resolve_gradient (property name under every
    non-value scope, not applied in @@section scope).  Definitions only.
 
    Mutation: every function returns the new node.  The Python code shares the
@@ -161,19 +161,18 @@ Fixpoint has_field_val (v : cval) : bool :=
   end.
 Definition has_field (value : cssvalue) : bool := existsb has_field_val value.
 
-(* wrap_with_field(node, config, state): threads state.index *)
+(* wrap_with_field(node, config, state): threads state.index.  Repaired code: every token becomes ONE token -- a
+   colour, literal, number or string becomes a Field (no position) holding its printed text; a FunctionCall stays a
+   FunctionCall whose arguments are wrapped with the same counter (document order); anything else is kept. *)
 Definition q_of (single : bool) : str := if single then [c_squote] else [c_dquote].
-Fixpoint wrap_val (cfg : sconfig) (v : cval) (idx : N) : list cval * N :=
+Fixpoint wrap_val (cfg : sconfig) (v : cval) (idx : N) {struct v} : cval * N :=
   match v with
-  | VTok (CColor r g b a _) _ _ =>
-      ([synth (CField (color r g b a (c_short_hex cfg)) (Some idx))], idx + 1)
-  | VTok (CLiteral s) _ _ => ([synth (CField s (Some idx))], idx + 1)
-  | VTok (CNumber value _ u) _ _ => ([synth (CField (frac value 4 ++ u) (Some idx))], idx + 1)
-  | VTok (CString s single) _ _ => ([synth (CField (q_of single ++ s ++ q_of single) (Some idx))], idx + 1)
+  | VTok (CColor r g b a _) _ _ => (synth (CField (color r g b a (c_short_hex cfg)) (Some idx)), idx + 1)
+  | VTok (CLiteral s) _ _ => (synth (CField s (Some idx)), idx + 1)
+  | VTok (CNumber value _ u) _ _ => (synth (CField (frac value 4 ++ u) (Some idx)), idx + 1)
+  | VTok (CString s single) _ _ => (synth (CField (q_of single ++ s ++ q_of single) (Some idx)), idx + 1)
   | VFunc name args =>
-      let head := [synth (CField name (Some idx)); synth (CLiteral [c_lparen])] in
-      let max_i := (length args - 1)%nat in
-      let fix wrap_args (l : list (list cval)) (i : nat) (idx : N) : list cval * N :=
+      let fix wrap_args (l : list (list cval)) (idx : N) : list (list cval) * N :=
         match l with
         | [] => ([], idx)
         | arg :: r =>
@@ -181,22 +180,27 @@ Fixpoint wrap_val (cfg : sconfig) (v : cval) (idx : N) : list cval * N :=
               match vs with
               | [] => ([], idx)
               | x :: xs => let '(o1, i1) := wrap_val cfg x idx in
-                           let '(o2, i2) := wrap_arg xs i1 in (o1 ++ o2, i2)
+                           let '(o2, i2) := wrap_arg xs i1 in (o1 :: o2, i2)
               end in
             let '(o1, i1) := wrap_arg arg idx in
-            let sep := if Nat.eqb i max_i then [] else [synth (CLiteral (lit ", "))] in
-            let '(o2, i2) := wrap_args r (S i) i1 in
-            (o1 ++ sep ++ o2, i2)
+            let '(o2, i2) := wrap_args r i1 in
+            (o1 :: o2, i2)
         end in
-      let '(body, idx') := wrap_args args O (idx + 1) in
-      (head ++ body ++ [synth (CLiteral [c_rparen])], idx')
-  | _ => ([v], idx)
+      let '(args', idx') := wrap_args args idx in
+      (VFunc name args', idx')
+  | _ => (v, idx)
   end.
 Fixpoint wrap_list (cfg : sconfig) (vs : list cval) (idx : N) : list cval * N :=
   match vs with
   | [] => ([], idx)
   | x :: xs => let '(o1, i1) := wrap_val cfg x idx in
-               let '(o2, i2) := wrap_list cfg xs i1 in (o1 ++ o2, i2)
+               let '(o2, i2) := wrap_list cfg xs i1 in (o1 :: o2, i2)
+  end.
+Fixpoint wrap_args (cfg : sconfig) (l : list (list cval)) (idx : N) : list (list cval) * N :=
+  match l with
+  | [] => ([], idx)
+  | a :: r => let '(o1, i1) := wrap_list cfg a idx in
+              let '(o2, i2) := wrap_args cfg r i1 in (o1 :: o2, i2)
   end.
 Definition wrap_with_field (cfg : sconfig) (node : cssvalue) : cssvalue := fst (wrap_list cfg node 1).
 
